@@ -319,6 +319,10 @@ def main(argv):
         ids = sorted(evs)
         for i in ids:
             e = evs[i]
+            if e.get("ev") == "Denote":
+                if verdicts.get(i, "ok") == "ok":
+                    nontrivial.add(json.dumps(e["bytes"]))
+                continue
             if e.get("ev") == "Lex":
                 if verdicts.get(i, "ok") == "ok" and e["out"].get("o") in ("ok", "err") and len(e.get("toks", [])) >= 2:
                     nontrivial.add(json.dumps(e["bytes"]))
